@@ -118,7 +118,7 @@ def op_3d(draw, T, methods=None):
         return op
     if m in ("gen_trace_header", "gen_trace_header_all", "header"):
         return {"m": m, "a": [draw(index_in(T.n_tr, bs[1]))]}
-    if m == "get_tracefield_values":
+    if m in ("get_tracefield_values", "attributes"):
         return {"m": m, "a": [draw(st.sampled_from(T.owners))]}
     raise ValueError(m)
 
@@ -127,14 +127,14 @@ METHODS_3D_SAMPLES = ["read_inline", "read_inline_number", "read_crossline", "re
                       "read_zslice_coord", "read_subvolume", "read_subvolume", "read_volume", "get_trace",
                       "get_trace_window", "get_trace_by_coord", "cdiag", "adiag", "iline", "xline", "depth_slice",
                       "trace", "subvolume_acc", "tools.cube", "xarray"]
-METHODS_3D_HEADERS = ["gen_trace_header", "gen_trace_header_all", "header", "get_tracefield_values"]
+METHODS_3D_HEADERS = ["gen_trace_header", "gen_trace_header_all", "header", "get_tracefield_values", "attributes"]
 METHODS_3D = METHODS_3D_SAMPLES + METHODS_3D_HEADERS
 # methods that go through one SgzReader object (no second open of the file)
 METHODS_3D_READER = ["read_inline", "read_inline_number", "read_crossline", "read_crossline_number", "read_zslice",
                      "read_zslice_coord", "read_subvolume", "read_volume", "get_trace", "get_trace_window",
                      "get_trace_by_coord", "cdiag", "adiag", "gen_trace_header", "gen_trace_header_all",
                      "get_tracefield_values"]
-METHODS_EMU_3D = ["iline", "xline", "depth_slice", "trace", "header", "subvolume_acc"]
+METHODS_EMU_3D = ["iline", "xline", "depth_slice", "trace", "header", "subvolume_acc", "attributes"]
 
 
 @st.composite
@@ -150,20 +150,20 @@ def op_2d(draw, T, methods=None):
         return {"m": m, "a": [i, a, b]}
     if m == "read_subplane":
         return {"m": m, "a": list(draw(range_in(n_tr, bs[1]))) + list(draw(range_in(n_s, bs[2])))}
-    if m == "get_tracefield_values":
+    if m in ("get_tracefield_values", "attributes"):
         return {"m": m, "a": [draw(st.sampled_from(T.owners))]}
     raise ValueError(m)
 
 
 METHODS_2D = ["get_trace", "get_trace_window", "read_subplane", "read_subplane", "trace", "gen_trace_header",
-              "gen_trace_header_all", "header", "get_tracefield_values"]
+              "gen_trace_header_all", "header", "get_tracefield_values", "attributes"]
 METHODS_2D_READER = ["get_trace", "get_trace_window", "read_subplane", "gen_trace_header", "gen_trace_header_all",
                      "get_tracefield_values"]
 
 
 def methods_for(T, reader_only=False, emu_only=False, samples_only=False):
     if T.is_2d:
-        ms = METHODS_2D_READER if reader_only else (["trace", "header"] if emu_only else METHODS_2D)
+        ms = METHODS_2D_READER if reader_only else (["trace", "header", "attributes"] if emu_only else METHODS_2D)
     else:
         ms = METHODS_3D_READER if reader_only else (METHODS_EMU_3D if emu_only else METHODS_3D)
         z = T.samples
@@ -173,7 +173,7 @@ def methods_for(T, reader_only=False, emu_only=False, samples_only=False):
     if samples_only:
         ms = [m for m in ms if m not in METHODS_3D_HEADERS]
     if not T.owners:
-        ms = [m for m in ms if m != "get_tracefield_values"]
+        ms = [m for m in ms if m not in ("get_tracefield_values", "attributes")]
     return ms
 
 
@@ -228,6 +228,9 @@ def expected(T, op):
         if T.is_2d:
             return "ints", np.asarray(col)
         return "ints", np.asarray(col).reshape(T.n_il, T.n_xl)
+    if m == "attributes":
+        # the emulator's attributes(field): the stored array as one flat vector (grid order, zeros at holes)
+        return "ints", np.asarray(T.cols[a[0]]).reshape(-1)
     raise ValueError(m)
 
 
@@ -367,6 +370,8 @@ def perform(H, op):
         return H.emu.trace[a[0]]
     if m == "header":
         return H.emu.header[a[0]]
+    if m == "attributes":
+        return np.array(H.emu.attributes(a[0])[:])
     if m == "subvolume_acc":
         e = H.emu
         axes = [T.ilines, T.xlines, e.subvolume.zslices_int]
@@ -482,7 +487,7 @@ def concretise(T, a):
             return {"m": m, "a": [_idx(u[0], T.n_tr), *_rng(u[1], u[2], T.n_s)]}
         if m == "read_subplane":
             return {"m": m, "a": [*_rng(u[0], u[1], T.n_tr), *_rng(u[2], u[3], T.n_s)]}
-        if m == "get_tracefield_values":
+        if m in ("get_tracefield_values", "attributes"):
             return {"m": m, "a": [T.owners[_idx(u[0], len(T.owners))]]}
         return None
     n_il, n_xl, n_s = T.n_il, T.n_xl, T.n_s
@@ -524,7 +529,7 @@ def concretise(T, a):
         if b[1]:
             op["win"] = list(_rng(u[3], u[4], n_s))
         return op
-    if m == "get_tracefield_values":
+    if m in ("get_tracefield_values", "attributes"):
         return {"m": m, "a": [T.owners[_idx(u[0], len(T.owners))]]}
     return None
 
